@@ -75,12 +75,20 @@ def check_values(case):
     sim._add_market(idx)
     comps = [ms[i] for i in case["comps"]]
     hist = []
+    for mid, m in enumerate(ms):
+        sim.fundamentals.add_market(market_id=mid, initial=100.0 + 10 * mid, drift=0.0, volatility=0.02)
+    order = list(sim.markets)
+    rng.shuffle(order)          # the index market may be listed before its components: all markets still advance together, components first
     for t in range(case["steps"]):
+        try:
+            sim._update_times_on_markets(order)
+        except AssertionError as e:
+            return f"clock update of the markets {[m.name for m in order]} (index market listed before a component) raised AssertionError({e})"
+        if len({m.get_time() for m in order}) != 1 or order[0].get_time() != t:
+            return f"after clock update {t} the markets read {[m.get_time() for m in order]}"
         for m in ms:
-            m._update_time(next_fundamental_price=rng.uniform(50, 150))
             if t > 0:
                 m._market_prices[m.get_time()] = round(rng.uniform(50, 150), 2)
-        idx._update_time(next_fundamental_price=idx.compute_fundamental_index(time=idx.get_time() + 1))
         hist.append(([m.get_market_price() for m in comps], [m.get_fundamental_price() for m in comps]))
         tot = sum(c.outstanding_shares for c in comps)
         for q in range(t + 1):
@@ -120,9 +128,19 @@ def search(seed, tier, obligation, hints):
         why = _check(case)
         if why:
             return {"found": True, "input": case, "observed": {"clause": why}, "witness_key": "index|" + why.split(":")[0], "cases": cases}
+    if obligation and obligation.startswith("Simulator."):
+        from . import whole_run
+        r2 = whole_run.search(seed, tier, obligation, hints)
+        if r2.get("found"):
+            r2["input"] = {"whole_run": r2["input"]}
+            return r2
+        cases += r2.get("cases", 0)
     return {"found": False, "cases": cases}
 
 
 def replay(inp):
+    if "whole_run" in inp:
+        from . import whole_run
+        return whole_run.replay(inp["whole_run"])
     why = _check(inp)
     return {"violated": bool(why), "clause": why}
